@@ -167,6 +167,12 @@ def build(scn, with_faults=True):
             ctl = ct.Rule(cond, then, els if els else None, priority=c.get('priority', 3), name=c['name'])
         wn.add_control(c['name'], ctl)
 
+    # a junction's own pressure-dependent-demand parameter changed during the run by a time control on the junction (public API:
+    # ControlAction(junction, 'required_pressure' | 'minimum_pressure' | 'pressure_exponent', value))
+    for k_, ch in enumerate(scn.get('pdd_changes', [])):
+        act = ct.ControlAction(wn.get_node(ch['node']), ch['attr'], float(ch['value']))
+        wn.add_control('pddchg%d' % (k_ + 1), ct.Control(ct.SimTimeCondition(wn, '=', float(ch['t'])), act, name='pddchg%d' % (k_ + 1)))
+
     for lk in scn.get('leaks', []):
         node = wn.get_node(lk['node'])
         node.add_leak(wn, area=lk['area'], discharge_coeff=lk.get('cd', 0.75),
